@@ -1,5 +1,5 @@
 use std::collections::{HashMap, HashSet};
-use std::sync::{Arc, RwLock};
+use std::sync::{Arc, Mutex, RwLock};
 #[cfg(feature = "mock_long_computations")]
 use std::time::Duration;
 
@@ -27,6 +27,20 @@ use crate::config::{AppState, RunningInfo, Task, ADF_COLL, COMPUTE_TIME, DB_NAME
 use crate::user::{username_exists, User};
 
 use crate::double_labeled_graph::DoubleLabeledGraph;
+
+/// Takes a task out of the set of running tasks when dropped, i.e. also when the computation unwinds.
+struct RunningGuard<'a> {
+    running: &'a Mutex<HashSet<RunningInfo>>,
+    info: &'a RunningInfo,
+}
+
+impl Drop for RunningGuard<'_> {
+    fn drop(&mut self) {
+        if let Ok(mut running) = self.running.lock() {
+            running.remove(self.info);
+        }
+    }
+}
 
 type Ac = Vec<Term>;
 type AcDb = Vec<String>;
@@ -409,6 +423,10 @@ async fn add_adf_problem(
                 .lock()
                 .unwrap()
                 .insert(running_info.clone());
+            let _running_guard = RunningGuard {
+                running: &app_state.currently_running,
+                info: &running_info,
+            };
 
             #[cfg(adf_obdd_verif)]
             crate::verif_seam::at(crate::verif_seam::Point::BlockingStart, &running_info);
@@ -575,6 +593,10 @@ async fn solve_adf_problem(
                 .lock()
                 .unwrap()
                 .insert(running_info.clone());
+            let _running_guard = RunningGuard {
+                running: &app_state.currently_running,
+                info: &running_info,
+            };
 
             #[cfg(adf_obdd_verif)]
             crate::verif_seam::at(crate::verif_seam::Point::BlockingStart, &running_info);
